@@ -129,6 +129,17 @@ def systematic():
         add(caps, [[sel([(True, 0, 0), (False, 0, 0)])], [op("recv", 0)]], "selsame")
         add(caps, [[sel([(True, 0, 0), (False, 0, 0)])], [op("send", 0)]], "selsame")
         add(caps, [[sel([(True, 0, 0), (False, 0, 0)])], [sel([(True, 0, 0), (False, 0, 0)])]], "selsame")
+    # ring-buffer arithmetic at every read position: rotate getp, fill through each kind of send, drain through each kind of receive
+    for cap in (1, 2, 3):
+        for rot in range(cap + 1):
+            for sk in ("send", "sel", "try"):
+                for rk in ("recv", "sel", "try"):
+                    mk_s = {"send": lambda: op("send"), "sel": lambda: sel([(True, 0, 0)]), "try": lambda: sel([(True, 0, 0)], True)}[sk]
+                    mk_r = {"recv": lambda: op("recv"), "sel": lambda: sel([(False, 0, 0)]), "try": lambda: sel([(False, 0, 0)], True)}[rk]
+                    ops = [op("send")] * rot + [op("recv")] * rot + [mk_s() for _ in range(cap)] + [mk_r() for _ in range(cap)]
+                    add([cap], [ops], "ring")
+                    # the same with the drain in a second goroutine
+                    add([cap], [[op("send")] * rot + [op("recv")] * rot + [mk_s() for _ in range(cap)], [mk_r() for _ in range(cap)]], "ring2")
     # select breaks ties by channel address: every two-channel scenario is also run with the address order reversed
     for s in list(S):
         if len(s["caps"]) == 2:
@@ -412,7 +423,8 @@ def check(chk):
         chk.sample({"validated_history": traces[0]})
     # ---- binding 2: llgo-compiled channel programs (compiler lowering of send/recv/select/close/len/cap, real threads)
     from . import progs
-    progs.run_chan_programs(chk, thorough, sd)
+    if os.environ.get("VERIF_NO_PROGS") != "1":      # (trial runs of seeded changes may skip the slow compiled part)
+        progs.run_chan_programs(chk, thorough, sd)
     chk.assumptions += ["all shared fields of Chan/selectOp are accessed only under their mutex, so lock/wait/signal calls are the only scheduling points",
                         "the stand-in mutex/condvar implement POSIX semantics incl. spurious wake-ups and arbitrary choice of the waiter woken by Signal",
                         "compiled code ignores ChanSend's boolean result (ssa/datastruct.go Send), so completion without panic is the observable of a send"]
